@@ -34,23 +34,18 @@ Lemma ct_neq_action : s_content_type <> s_SOAPAction. Proof. discriminate. Qed.
 Lemma prepare_headers_soap : forall act h,
   exists h', prepare_headers (Some SOAP_HTTP) act h = Some h'
     /\ hdr_lookup h' s_content_type = Some s_text_xml
-    /\ (forall c a, act = Some (c :: a) -> hdr_lookup h' s_SOAPAction = Some (c :: a))
-    /\ (act = None \/ act = Some [] -> hdr_lookup h' s_SOAPAction = hdr_lookup h s_SOAPAction)
+    /\ (forall a, act = Some a -> hdr_lookup h' s_SOAPAction = Some a)
+    /\ (act = None -> hdr_lookup h' s_SOAPAction = hdr_lookup h s_SOAPAction)
     /\ (forall k, k <> s_content_type -> k <> s_SOAPAction -> hdr_lookup h' k = hdr_lookup h k).
 Proof.
   intros act h. unfold prepare_headers.
   replace (ostr_eqb (Some SOAP_HTTP) (Some c_soap_transport)) with true by reflexivity.
   rewrite content_type_const, text_xml_const, soap_action_const.
-  destruct act as [[|c a]|].
-  - eexists; split; [reflexivity|]. repeat split.
-    + apply dict_set_same.
-    + intros; discriminate.
-    + intros _. apply dict_set_other. intro E; symmetry in E; revert E; apply ct_neq_action.
-    + intros k H1 _. apply dict_set_other; exact H1.
+  destruct act as [a|].
   - eexists; split; [reflexivity|]. repeat split.
     + rewrite dict_set_other by apply ct_neq_action. apply dict_set_same.
-    + intros c' a' E; inversion E; subst. apply dict_set_same.
-    + intros [E|E]; discriminate.
+    + intros a' E; inversion E; subst. apply dict_set_same.
+    + intros E; discriminate.
     + intros k H1 H2. rewrite dict_set_other by exact H2. apply dict_set_other; exact H1.
   - eexists; split; [reflexivity|]. repeat split.
     + apply dict_set_same.
@@ -69,33 +64,19 @@ Proof.
   apply str_eqb_eq in E. subst. reflexivity.
 Qed.
 
-(* "SOAPAction present iff the binding declares one" is false of the faithful model:
-   a declared soapAction="" is dropped *)
-Definition soapaction_iff_declared_statement : Prop :=
-  forall act h h', prepare_headers (Some SOAP_HTTP) act h = Some h' ->
-                   hdr_lookup h [] = None -> hdr_lookup h s_SOAPAction = None ->
-                   hdr_lookup h' s_SOAPAction = act.
-
-Lemma soapaction_iff_declared_refuted : ~ soapaction_iff_declared_statement.
-Proof.
-  intros H. specialize (H (Some []) [] [(s_content_type, s_text_xml)] eq_refl eq_refl eq_refl).
-  discriminate H.
-Qed.
-
-(* ... and true when the declared action is not the empty string *)
+(* SOAPAction present iff the binding declares one (the empty action included; repaired in
+   /repo d4f6af6 — before, a declared soapAction="" was dropped) *)
 Lemma soapaction_iff_declared : forall act h h',
-  act <> Some [] ->
   prepare_headers (Some SOAP_HTTP) act h = Some h' ->
   hdr_lookup h s_SOAPAction = None ->
   hdr_lookup h' s_SOAPAction = act.
 Proof.
-  intros act h h' Hne Hp Hu.
+  intros act h h' Hp Hu.
   destruct (prepare_headers_soap act h) as [h0 [E [_ [Hs [Hn _]]]]].
   rewrite E in Hp; inversion Hp; subst h0; clear Hp.
-  destruct act as [[|c a]|].
-  - congruence.
-  - apply (Hs c a eq_refl).
-  - rewrite Hn by (left; reflexivity). exact Hu.
+  destruct act as [a|].
+  - apply (Hs a eq_refl).
+  - rewrite Hn by reflexivity. exact Hu.
 Qed.
 
 Section Send.
@@ -163,7 +144,7 @@ Section Send.
         ([mk_call (cc_location _ cfg) (PStr (render obj)) h'],
          inr (parse (post (cc_location _ cfg) (PStr (render obj)) h') (cc_output _ cfg)))
       /\ hdr_lookup h' s_content_type = Some s_text_xml
-      /\ (forall c a, cc_soap_action _ cfg = Some (c :: a) -> hdr_lookup h' s_SOAPAction = Some (c :: a))
+      /\ (forall a, cc_soap_action _ cfg = Some a -> hdr_lookup h' s_SOAPAction = Some a)
       /\ (forall k, k <> s_content_type -> k <> s_SOAPAction -> hdr_lookup h' k = hdr_lookup h k).
   Proof.
     intros cfg obj h Hd Hi He Ht.
